@@ -401,7 +401,7 @@ impl GraphStore {
                 !node_conflict(*old(self), txn),                                                          //#l2_nodes_clear
                 forall|i: int| 0 <= i < it2.index() ==> !(self.edge_last_commit@.contains_key(*it2.seq()[i])
                     && #[trigger] self.edge_last_commit@[*it2.seq()[i]] > txn.start_version),             //#l2_no_conflict_so_far
-//@before "for nid__r in" 2
+//@beforeloop 3
         let ghost mut done_n = Set::<NodeId>::empty();
         proof { lemma_empty_unref_set::<NodeId>(); }
 //@loop 3 iter=it3
@@ -421,7 +421,7 @@ impl GraphStore {
             assert(it3.index() + 1 == it3.seq().len() ==> done_n =~= txn.node_write_set@) by {
                 if it3.index() + 1 == it3.seq().len() { lemma_prefix_set_is_unref_set(it3.seq(), done_n); }
             }
-//@before "for eid__r in" 2
+//@beforeloop 4
         assert(done_n =~= txn.node_write_set@);
         let ghost mut done_e = Set::<EdgeId>::empty();
         proof { lemma_empty_unref_set::<EdgeId>(); }
